@@ -129,9 +129,15 @@ def type_value_map(node) -> List[Tuple[str, str, str]]:
 
 def q_data(fn: ast.FunctionDef) -> Dict[str, str]:
     """the `escapes` dict (constant keys; the `quote` entry separately) and the control-character test"""
-    esc = _assign_value(fn.body, "escapes")
-    if not isinstance(esc, ast.Dict):
-        raise TranslationError("q: `escapes` is not a dict literal")
+    # local names are read off the code (a renamed local is not a change of behaviour):
+    # the dict literal assigned once, the list the loop appends to
+    dicts = [st for st in fn.body if isinstance(st, ast.Assign) and len(st.targets) == 1
+             and isinstance(st.targets[0], ast.Name) and isinstance(st.value, ast.Dict)]
+    lists = [st for st in fn.body if isinstance(st, ast.Assign) and len(st.targets) == 1
+             and isinstance(st.targets[0], ast.Name) and isinstance(st.value, ast.List) and not st.value.elts]
+    if len(dicts) != 1 or len(lists) != 1:
+        raise TranslationError("q: expected one dict literal (escapes) and one empty list (pieces)")
+    esc, escn, bodyn = dicts[0].value, dicts[0].targets[0].id, lists[0].targets[0].id
     quote_param = fn.args.args[1].arg
     consts, has_quote = [], False
     for k, v in zip(esc.keys, esc.values):
@@ -151,7 +157,7 @@ def q_data(fn: ast.FunctionDef) -> Dict[str, str]:
     if var is None or len(loop.body) != 1 or not isinstance(loop.body[0], ast.If):
         raise TranslationError("q: loop body is not a single if/elif/else")
     if1 = loop.body[0]
-    if not same(if1.test, f"{var} in escapes") or len(if1.body) != 1 or not same(if1.body[0], f"body.append(escapes[{var}])"):
+    if not same(if1.test, f"{var} in {escn}") or len(if1.body) != 1 or not same(if1.body[0], f"{bodyn}.append({escn}[{var}])"):
         raise TranslationError("q: first branch is not the escapes lookup")
     if len(if1.orelse) != 1 or not isinstance(if1.orelse[0], ast.If):
         raise TranslationError("q: missing control-character branch")
@@ -164,12 +170,12 @@ def q_data(fn: ast.FunctionDef) -> Dict[str, str]:
     if not ok:
         raise TranslationError(f"q: control-character test has an unexpected shape: {ast.unparse(t)}")
     below, also = t.values[0].comparators[0].value, t.values[1].comparators[0].value
-    if len(if2.body) != 1 or not same(if2.body[0], 'body.append(f"\\\\x{ord(%s):02x}")' % var):
+    if len(if2.body) != 1 or not same(if2.body[0], '%s.append(f"\\\\x{ord(%s):02x}")' % (bodyn, var)):
         raise TranslationError(f"q: control characters are not written as \\xNN: {ast.unparse(if2.body[0])}")
-    if len(if2.orelse) != 1 or not same(if2.orelse[0], f"body.append({var})"):
+    if len(if2.orelse) != 1 or not same(if2.orelse[0], f"{bodyn}.append({var})"):
         raise TranslationError("q: last branch does not copy the character")
     rets = [st for st in fn.body if isinstance(st, ast.Return)]
-    if not rets or not same(rets[-1].value, "f\"{%s}{''.join(body)}{%s}\"" % (quote_param, quote_param)):
+    if not rets or not same(rets[-1].value, "f\"{%s}{''.join(%s)}{%s}\"" % (quote_param, bodyn, quote_param)):
         raise TranslationError("q: return is not quote + body + quote")
     return {
         "qEscapes": "[" + ", ".join(f"({lean_char(k)}, {lean_str(v)})" for k, v in consts) + "]",
@@ -236,9 +242,11 @@ def gen_xlate_tables() -> str:
         out.append(f"def {lname} : List (String × List Char) := " + lean_pairs_chars(str_dict(_assign_value(f.body, var), f"{fn}.{var}")))
     # units of seconds_to_duration
     sd = find_func(cls.body, "seconds_to_duration")
-    units = _assign_value(sd.body, "units")
-    if not isinstance(units, ast.List):
-        raise TranslationError("seconds_to_duration: units is not a list literal")
+    cands = [st.value for st in sd.body if isinstance(st, ast.Assign) and isinstance(st.value, ast.List)
+             and st.value.elts and all(isinstance(e, ast.Tuple) for e in st.value.elts)]
+    if len(cands) != 1:
+        raise TranslationError("seconds_to_duration: expected one list of (seconds, name) pairs")
+    units = cands[0]
     us = []
     for e in units.elts:
         if not (isinstance(e, ast.Tuple) and len(e.elts) == 2 and isinstance(e.elts[1], ast.Constant)
@@ -247,12 +255,14 @@ def gen_xlate_tables() -> str:
         us.append(f"({const_int(e.elts[0])}, {lean_char(e.elts[1].value)})")
     out.append("/-- `units` of `seconds_to_duration` -/")
     out.append("def durationUnits : List (Nat × Char) := " + lean_list(us))
-    zero = [st for st in ast.walk(sd) if isinstance(st, ast.If) and ast.unparse(st.test) == "not duration"]
     ztext = ""
-    if zero and len(zero[0].body) == 1 and isinstance(zero[0].body[0], ast.Expr):
-        call = zero[0].body[0].value
-        if isinstance(call, ast.Call) and ast.unparse(call.func) == "duration.append" and isinstance(call.args[0], ast.Constant):
-            ztext = call.args[0].value
+    for st in ast.walk(sd):
+        if isinstance(st, ast.If) and isinstance(st.test, ast.UnaryOp) and isinstance(st.test.op, ast.Not) \
+                and isinstance(st.test.operand, ast.Name) and len(st.body) == 1 and isinstance(st.body[0], ast.Expr):
+            call = st.body[0].value
+            if isinstance(call, ast.Call) and same(call.func, f"{st.test.operand.id}.append") and len(call.args) == 1 \
+                    and isinstance(call.args[0], ast.Constant) and isinstance(call.args[0].value, str):
+                ztext = call.args[0].value
     out.append("/-- what `seconds_to_duration` writes when no unit has a non-zero count (\"\" if it has no such case) -/")
     out.append(f"def zeroDuration : String := {lean_str(ztext)}")
     ad = find_func(cls.body, "age_to_duration")
